@@ -261,6 +261,9 @@ func c36GenLayout(rng *rand.Rand, s3 *c36S3, caseNo int, thorough bool) *c36Layo
 		l.DefLimit = 1 + rng.Intn(l.TotalRecs+2)
 	}
 	l.ReqBound = rng.Intn(4) == 0
+	if rng.Intn(10) < 3 { // a "live" layout: nothing is cached, so segments can arrive while the server runs (c36Grow)
+		l.ResCache, l.DiscTTL, l.Manifest = false, -1, ""
+	}
 	return l
 }
 
